@@ -256,14 +256,28 @@ def run_harness(lines, profile="debug", timeout=900):
     chunks = [lines[i::n] for i in range(n)]
 
     def one(chunk):
-        p = subprocess.run(["timeout", str(timeout), exe], input="\n".join(chunk) + "\n",
-                           stdout=subprocess.PIPE, stderr=subprocess.PIPE, text=True, timeout=timeout + 30)
-        outl = p.stdout.split("\n")
-        if outl and outl[-1] == "":
-            outl.pop()
-        if len(outl) != len(chunk):
-            # the process died (abort / stack overflow / hang): find the culprit line
-            outl = outl + ["CRASH rc=%d" % p.returncode] + ["NOT-RUN"] * (len(chunk) - len(outl) - 1)
+        outl = []
+        todo = list(chunk)
+        while todo:
+            try:
+                p = subprocess.run(["timeout", str(timeout), exe], input="\n".join(todo) + "\n",
+                                   stdout=subprocess.PIPE, stderr=subprocess.PIPE, text=True, timeout=timeout + 30)
+                got = p.stdout.split("\n"); rc = p.returncode
+            except subprocess.TimeoutExpired as e:
+                got = (e.stdout or b"").decode(errors="replace").split("\n") if isinstance(e.stdout, bytes) else (e.stdout or "").split("\n"); rc = 124
+            if got and got[-1] == "":
+                got.pop()
+            if len(got) >= len(todo):
+                outl += got[:len(todo)]
+                break
+            # the process died before finishing (abort / stack overflow / watchdog): the case after the
+            # last complete answer is the culprit unless that answer is itself the HANG report
+            if got and got[-1].startswith("HANG"):
+                outl += got
+                todo = todo[len(got):]
+            else:
+                outl += got + ["CRASH rc=%d" % rc]
+                todo = todo[len(got) + 1:]
         return outl
 
     with ThreadPoolExecutor(max_workers=n) as ex:
